@@ -1,3 +1,144 @@
+import Cello.Config
+import CelloGen.Cfg
 import Driver.Common
-/- driver for engine `cfg` — stub, replaced when the engine is built -/
-def main (_args : List String) : IO Unit := IO.println "O not-implemented"
+/- driver for engine `cfg` (C18): interprets the op files of harness/h_cfg.c on the model of Cello/Config.lean under the
+   default configuration and prints the `O` lines the harness prints; it also runs the same program under the seven other
+   configurations and reports (`S` line, and an `O model-config-divergence` line that no harness prints) whether outcome
+   list and observable contents agree — the executable form of theorem C18_config_independent. -/
+open Cello.Config
+
+def parseVal (t : String) : Option Val :=
+  match t.toList with
+  | 'i' :: rest =>
+    let s := String.ofList rest
+    let digits := if s.startsWith "-" then (s.drop 1).toString else s
+    if digits.isEmpty || digits.length > 17 || !digits.all Char.isDigit then none else (s.toInt?).map Val.int
+  | 's' :: rest =>
+    if rest.length > 30 || !rest.all (fun c => c.isAlphanum || c = '_') then none else some (.str (String.ofList rest))
+  | _ => none
+
+def parseTy (t : String) : Option Ty := if t = "I" then some .I else if t = "S" then some .S else none
+
+def parseInt (t : String) : Option Int :=
+  let digits := if t.startsWith "-" then (t.drop 1).toString else t
+  if digits.isEmpty || digits.length > 17 || !digits.all Char.isDigit then none else t.toInt?
+
+def maxSlot : Nat := 48
+def maxTok : Nat := 80
+
+def parseSlot (t : String) : Option Nat :=
+  match parseInt t with
+  | some i => if i ≥ 0 && i < (maxSlot : Int) then some i.toNat else none
+  | none => none
+
+def parseVals : List String → Option (List Val)
+  | [] => some []
+  | t :: ts => match parseVal t, parseVals ts with
+    | some v, some vs => some (v :: vs)
+    | _, _ => none
+
+def parseOp (ws : List String) : Option Op :=
+  match ws with
+  | ["nv", d, v] => do some (.nv (← parseSlot d) (← parseVal v))
+  | "na" :: d :: ty :: vs => do some (.nseq .array (← parseSlot d) (← parseTy ty) (← parseVals vs))
+  | "nl" :: d :: ty :: vs => do some (.nseq .list (← parseSlot d) (← parseTy ty) (← parseVals vs))
+  | ["nt", d, kt, vt] => do some (.nmap .table (← parseSlot d) (← parseTy kt) (← parseTy vt))
+  | ["nr", d, kt, vt] => do some (.nmap .tree (← parseSlot d) (← parseTy kt) (← parseTy vt))
+  | ["del", x] => do some (.del (← parseSlot x))
+  | ["drop", x] => do some (.drop (← parseSlot x))
+  | ["push", c, v] => do some (.push (← parseSlot c) (← parseVal v))
+  | ["pushat", c, i, v] => do some (.pushat (← parseSlot c) (← parseInt i) (← parseVal v))
+  | ["pop", c] => do some (.pop (← parseSlot c))
+  | ["popat", c, i] => do some (.popat (← parseSlot c) (← parseInt i))
+  | ["get", c, i] => do some (.get (← parseSlot c) (← parseInt i))
+  | ["set", c, i, v] => do some (.set (← parseSlot c) (← parseInt i) (← parseVal v))
+  | ["rem", c, v] => do some (.rem (← parseSlot c) (← parseVal v))
+  | ["mem", c, v] => do some (.mem (← parseSlot c) (← parseVal v))
+  | ["len", x] => do some (.len (← parseSlot x))
+  | ["mset", m, k, v] => do some (.mset (← parseSlot m) (← parseVal k) (← parseVal v))
+  | ["mget", m, k] => do some (.mget (← parseSlot m) (← parseVal k))
+  | ["mrem", m, k] => do some (.mrem (← parseSlot m) (← parseVal k))
+  | ["mmem", m, k] => do some (.mmem (← parseSlot m) (← parseVal k))
+  | ["items", c] => do some (.items (← parseSlot c))
+  | ["ritems", c] => do some (.ritems (← parseSlot c))
+  | ["sort", c] => do some (.sort (← parseSlot c))
+  | ["copy", d, c] => do some (.copy (← parseSlot d) (← parseSlot c))
+  | ["concat", c, c2] => do some (.concat (← parseSlot c) (← parseSlot c2))
+  | ["resize", c, n] => do some (.resize (← parseSlot c) (← parseInt n))
+  | ["eq", a, b] => do some (.eq (← parseSlot a) (← parseSlot b))
+  | ["cmp", a, b] => do some (.cmp (← parseSlot a) (← parseSlot b))
+  | ["vset", x, v] => do some (.vset (← parseSlot x) (← parseVal v))
+  | ["exc", k] => do some (.exc (← parseInt k))
+  | ["nest", a, b] => do some (.nest (← parseInt a) (← parseInt b))
+  | ["hash", x] => do some (.hash (← parseSlot x))
+  | ["show", x] => do some (.show (← parseSlot x))
+  | ["fmt", p, x] => do some (.fmt (← parseInt p) (← parseSlot x))
+  | ["flt", a, b] => do some (.flt (← parseInt a) (← parseInt b))
+  | ["range", a, b, c] => do some (.range (← parseInt a) (← parseInt b) (← parseInt c))
+  | ["slice", c, k] => do some (.slice (← parseSlot c) (← parseInt k))
+  | ["rev", c] => do some (.rev (← parseSlot c))
+  | ["enum", c] => do some (.enum (← parseSlot c))
+  | ["zip", a, b] => do some (.zip (← parseSlot a) (← parseSlot b))
+  | ["filter", c, k] => do some (.filter (← parseSlot c) (← parseInt k))
+  | ["map", c, k] => do some (.map (← parseSlot c) (← parseInt k))
+  | ["gc"] => some .gc
+  | _ => none
+
+def showVal : Val → String
+  | .int i => s!"i{i}"
+  | .str s => s!"s{s}"
+
+def showOut : Out → Option String
+  | .unit => some "ok"
+  | .len n => some s!"len {n}"
+  | .val v => some s!"get {showVal v}"
+  | .mem b => some s!"mem {if b then 1 else 0}"
+  | .items xs => some ("items [" ++ ",".intercalate (xs.map showVal) ++ "]")
+  | .kvs xs => some ("items [" ++ ",".intercalate (xs.map (fun p => showVal p.1 ++ "=" ++ showVal p.2)) ++ "]")
+  | .eq b => some s!"eq {if b then 1 else 0}"
+  | .cmp c => some s!"cmp {c}"
+  | .exc n => some s!"exc {n}"
+  | .nest site n => some s!"nest {site} {n}"
+  | .silent => none
+
+def main (args : List String) : IO Unit := do
+  let lines ← Driver.inputLines args
+  let cfgs := Cfg.all
+  -- one state per configuration, advanced in lock step; index 0 is the default configuration
+  let mut sts : List St := cfgs.map (fun _ => St.init)
+  let mut nOps := 0
+  let mut nOoc := 0
+  let mut nBad := 0
+  let mut nDiverge := 0
+  let mut collections := 0
+  let mut memoFills := 0
+  for l in lines do
+    if Driver.isSkippable l then continue
+    let ws := Driver.words l
+    if ws.length > maxTok then
+      IO.println "O bad-op"; nBad := nBad + 1; continue
+    match parseOp ws with
+    | none => IO.println "O bad-op"; nBad := nBad + 1
+    | some op =>
+      let rs := (cfgs.zip sts).map (fun p => step p.1 op p.2)
+      let r0 := rs.head!
+      match r0.2 with
+      | .ok out =>
+        nOps := nOps + 1
+        match showOut out with
+        | some t => IO.println s!"O {t}"
+        | none => pure ()
+        -- every other configuration must agree on the outcome and on the observable contents
+        let agree := rs.all (fun r => r.2 == r0.2 && r.1.observe == r0.1.observe)
+        if !agree then
+          nDiverge := nDiverge + 1
+          IO.println "O model-config-divergence"
+        if r0.1.heap.length < (sts.head!).heap.length && r0.1.live.length ≥ (sts.head!).live.length then collections := collections + 1
+        if r0.1.memo.length > (sts.head!).memo.length then memoFills := memoFills + 1
+        sts := rs.map (·.1)
+      | _ =>
+        -- out of contract under the default configuration: not executed by the harness; the states stay as they are
+        nOoc := nOoc + 1
+        IO.println "O out-of-contract"
+  IO.println s!"O end live={(sts.head!).live.length}"
+  IO.println s!"S ops={nOps} out-of-contract={nOoc} bad={nBad} config-divergences={nDiverge} collections={collections} cache-fills={memoFills} heap-default={(sts.head!).heap.length} heap-ngc={((sts.drop 3).head!).heap.length}"
